@@ -156,6 +156,7 @@ Proof.
     rewrite ?py_get_eq, ?py_remove_eq, ?py_modify_eq, ?py_parent_eq, ?py_modify_at_eq; try reflexivity.
   - destruct (node_at root (psegs pp)); reflexivity.
   - destruct (node_at root (psegs pp)); reflexivity.
+  - destruct (get root src); [|reflexivity]. destruct (node_at root (psegs dst)); reflexivity.
 Qed.
 
 (* ================================================================== numbers / validity *)
@@ -773,7 +774,7 @@ Lemma step_root_wf : forall n root o, wf n root -> wf (S n) (fst (step_root repa
 Proof.
   intros n root o Hwf.
   assert (Hm : wf (S n) root) by (eapply wf_mono; [|exact Hwf]; lia).
-  destruct o as [path v|pp s|pp s|path|path|path v|path|path]; simpl.
+  destruct o as [path v|pp s|pp s|path|path|path v|path|src dst|path]; simpl.
   - destruct (modify (segments path) (set_value repaired v) root) as [r'|e] eqn:E; simpl; [|exact Hm].
     eapply modify_wf in E; [apply E | | exact Hwf |]; [lia|].
     intros x x' Hx Hs. eapply set_value_wf; [|exact Hx|exact Hs]. lia.
@@ -800,6 +801,9 @@ Proof.
     eapply modify_wf in E; [apply E | | exact Hwf |]; [lia|].
     intros x x' Hx Hs. eapply set_value_wf; [|exact Hx|exact Hs]. lia.
   - destruct (get root path) as [[? ? ? ? ?|? ?]|e]; simpl; exact Hm.
+  - destruct (get root src) as [p|e]; simpl; [|exact Hm].
+    destruct (node_at root (psegs dst)) as [par|]; simpl; [|exact Hm].
+    destruct (map_add p par); simpl; exact Hm.
   - destruct (get root path) as [[? ? ? ? ?|? ?]|e]; simpl; exact Hm.
 Qed.
 
@@ -837,7 +841,7 @@ Qed.
 Theorem rejected_unchanged_root : forall n root o e,
   snd (step_root repaired n root o) = ORaise e -> fst (step_root repaired n root o) = root.
 Proof.
-  intros n root o e. destruct o as [path v|pp s|pp s|path|path|path v|path|path]; simpl;
+  intros n root o e. destruct o as [path v|pp s|pp s|path|path|path v|path|src dst|path]; simpl;
     repeat match goal with
            | |- context [match ?x with _ => _ end] => destruct x eqn:?; simpl
            end; intros H; try discriminate H; reflexivity.
@@ -919,7 +923,7 @@ Proof.
     - apply Hold. eapply nodes_trans; eauto.
     - right. rewrite node_of_nodes in Hs. destruct Hs as [Hs|[]].
       unfold node_of in Hs. destruct (s_kind s); inversion Hs; subst; auto. }
-  destruct o as [path v|pp s|pp s|path|path|path v|path|path]; simpl in Hin.
+  destruct o as [path v|pp s|pp s|path|path|path v|path|src dst|path]; simpl in Hin.
   - destruct (modify (segments path) (set_value repaired v) root) as [r'|e] eqn:E; simpl in Hin; eauto.
   - destruct (node_at root (psegs pp)) as [par|]; simpl in Hin; auto.
     destruct (ctor_checks repaired s (Some par)); simpl in Hin; auto.
@@ -932,6 +936,9 @@ Proof.
   - destruct (get root path) as [p|e]; simpl in Hin; auto.
   - destruct (modify (segments path) (set_value repaired v) root) as [r'|e] eqn:E; simpl in Hin; eauto.
   - destruct (get root path) as [[? ? ? ? ?|? ?]|e]; simpl in Hin; auto.
+  - destruct (get root src) as [p|e]; simpl in Hin; auto.
+    destruct (node_at root (psegs dst)) as [par|]; simpl in Hin; auto.
+    destruct (map_add p par); simpl in Hin; auto.
   - destruct (get root path) as [[? ? ? ? ?|? ?]|e]; simpl in Hin; auto.
 Qed.
 
@@ -1316,6 +1323,27 @@ Theorem failed_construction_not_registered : forall n root pp s e,
   fst (step_root repaired n root (OAddCtor pp s)) = root.
 Proof. intros. eapply rejected_unchanged_root; eauto. Qed.
 
+(* ================================================================== T11: a refused add of an existing object *)
+(* Offering a parameter that already lives somewhere in the tree to a map that
+   holds its key (or to something that is not a map) is refused and nothing
+   changes: the tree is the same, so the parameter is still where it was,
+   keeps its extended key, and that key still resolves to it. *)
+Theorem readd_duplicate_refused : forall n root src dst p h ch,
+  get root src = Val p -> node_at root (psegs dst) = Some (Map h ch) -> In (pkey p) (map pkey ch) ->
+  step_root repaired n root (OReAdd src dst) = (root, ORaise ValueError).
+Proof.
+  intros n root src dst p h ch Hg Hn Hin. simpl. rewrite Hg, Hn.
+  rewrite (duplicate_refused_map p h ch Hin). reflexivity.
+Qed.
+
+Theorem readd_never_changes_the_tree : forall n root src dst,
+  fst (step_root repaired n root (OReAdd src dst)) = root.
+Proof.
+  intros. simpl. destruct (get root src) as [p|e]; [|reflexivity].
+  destruct (node_at root (psegs dst)) as [par|]; [|reflexivity].
+  destruct (map_add p par); reflexivity.
+Qed.
+
 (* ================================================================== the pinned snapshot (13808df) *)
 (* The three defects of the snapshot, as behaviour of [step pinned]; each was
    replayed on the snapshot's code.  /repo has since been repaired (commits
@@ -1484,7 +1512,7 @@ Proof.
       simpl. unfold ids at 1. rewrite node_of_nodes. simpl. rewrite node_of_id. apply perm_swap. }
     eapply Permutation_NoDup; [apply Permutation_sym, Hperm|]. simpl. constructor; [|exact Hnd].
     intro Hin. pose proof (wf_ids_below _ _ Hwf) as Hb. rewrite Forall_forall in Hb. specialize (Hb _ Hin). lia. }
-  destruct o as [path v|pp s|pp s|path|path|path v|path|path]; simpl.
+  destruct o as [path v|pp s|pp s|path|path|path v|path|src dst|path]; simpl.
   - destruct (modify (segments path) (set_value repaired v) root) as [r'|e] eqn:E; simpl; eauto.
   - destruct (node_at root (psegs pp)) as [par|]; simpl; auto.
     destruct (ctor_checks repaired s (Some par)); simpl; auto.
@@ -1498,6 +1526,9 @@ Proof.
   - destruct (get root path) as [p|e]; simpl; auto.
   - destruct (modify (segments path) (set_value repaired v) root) as [r'|e] eqn:E; simpl; eauto.
   - destruct (get root path) as [[? ? ? ? ?|? ?]|e]; simpl; auto.
+  - destruct (get root src) as [p|e]; simpl; auto.
+    destruct (node_at root (psegs dst)) as [par|]; simpl; auto.
+    destruct (map_add p par); simpl; auto.
   - destruct (get root path) as [[? ? ? ? ?|? ?]|e]; simpl; auto.
 Qed.
 
